@@ -338,8 +338,18 @@ def reader_rules(ctx):
     ok = False
     if len(loop) == 1:
         a = loop[0].body[0]
+        # a local that names this level's table (`t = self.boxes[lv]`) is that table
+        al = {norm(n.targets[0]) for n in walk_no_nested(ini.node) if isinstance(n, ast.Assign) and
+              isinstance(n.targets[0], ast.Name) and norm(n.value) == "self.boxes[lv]"}
+
+        def tgt(e):
+            t = norm(e)
+            for x in al:
+                if t.startswith(x + "["):
+                    t = "self.boxes[lv]" + t[len(x):]
+            return t
         ok = isinstance(a, ast.Assign) and norm(a.value) == "self.read_level_header(lv, f'{sub_data}_H', maxmins=maxmins)" and \
-            [norm(e) for e in a.targets[0].elts] == ["self.nfields[f'{sub_data}']", "self.boxes[lv][f'{sub_data}_paths']",
+            isinstance(a.targets[0], ast.Tuple) and [tgt(e) for e in a.targets[0].elts] == ["self.nfields[f'{sub_data}']", "self.boxes[lv][f'{sub_data}_paths']",
                                                     "self.boxes[lv][f'{sub_data}_offsets']",
                                                     "self.boxes[lv][f'{sub_data}_mins']", "self.boxes[lv][f'{sub_data}_maxs']"]
     ctx.check(ok, f"{P}.SIDE-COH", site, "each subset's header fills that subset's own paths/offsets tables",
